@@ -415,7 +415,23 @@ pub fn csnap(data: &[u8], obs: &mut Obs) -> ORes {
                     all_runnable = false;
                 },
                 Plan::Abort(sig, bytes) => {
-                    return fail(sig, format!("not executed: field {fname}: decompress_vector would request {bytes} bytes (dimension field above MAX_DIMENSION)"));
+                    // A request of this size cannot be served (the process would abort), so the
+                    // decoder is run in a child process: it must refuse the value.
+                    if let CompressedValue::VectorSparse { dimension, .. } = v {
+                        match sparse_dimension_probe(*dimension) {
+                            Some(true) => {
+                                obs.label("csnap:sparse-dimension-above-limit-rejected-in-child");
+                                continue;
+                            },
+                            Some(false) => {},
+                            None => {
+                                obs.label("csnap:sparse-dimension-probe-inconclusive");
+                                all_runnable = false;
+                                continue;
+                            },
+                        }
+                    }
+                    return fail(sig, format!("field {fname}: decompress_vector does not refuse a sparse dimension above MAX_DIMENSION and would request {bytes} bytes (observed in a child process)"));
                 },
                 Plan::Run { bound, why } => {
                     let site = match v {
@@ -1099,5 +1115,60 @@ pub fn fuzz_entry(target: &str, data: &[u8]) {
                 Err(_) => std::process::abort(),
             }
         }
+    }
+}
+
+
+/// Does `decompress_vector` refuse a sparse value of this dimension? Observed in a child process
+/// (`child sparse-dim <dimension>`), because a build that does not refuse it aborts on the
+/// allocation. Cached per power of two of the dimension. `None`: the child could not be run.
+pub fn sparse_dimension_probe(dimension: usize) -> Option<bool> {
+    use std::collections::HashMap;
+    use std::sync::{Mutex, OnceLock};
+    static CACHE: OnceLock<Mutex<HashMap<u32, Option<bool>>>> = OnceLock::new();
+    let bucket = usize::BITS - dimension.leading_zeros();
+    let cache = CACHE.get_or_init(|| Mutex::new(HashMap::new()));
+    if let Some(r) = cache.lock().unwrap_or_else(|e| e.into_inner()).get(&bucket) {
+        return *r;
+    }
+    // only the harness binary understands `child sparse-dim` (a fuzz target does not: there the
+    // probe is inconclusive and the saved input is judged when the harness re-checks it)
+    let exe = std::env::current_exe().ok()?;
+    if !exe.file_name().is_some_and(|n| n.to_string_lossy().starts_with("nv_c20")) {
+        return None;
+    }
+    let out = std::process::Command::new(exe).args(["child", "sparse-dim", &dimension.to_string()]).output();
+    let r = match out {
+        Ok(o) => {
+            let text = String::from_utf8_lossy(&o.stdout);
+            if text.contains("SPARSE-DIM refused") {
+                Some(true)
+            } else {
+                // accepted, aborted on the allocation, or killed: not refused
+                Some(false)
+            }
+        },
+        Err(_) => None,
+    };
+    cache.lock().unwrap_or_else(|e| e.into_inner()).insert(bucket, r);
+    r
+}
+
+/// Child side of [`sparse_dimension_probe`].
+pub fn sparse_dimension_child(args: &[String]) -> i32 {
+    let Some(dimension) = args.first().and_then(|a| a.parse::<usize>().ok()) else {
+        println!("usage: child sparse-dim <dimension>");
+        return 2;
+    };
+    let v = CompressedValue::VectorSparse { dimension, positions: tensor_compress::compress_ids(&[]), values: Vec::new() };
+    match tensor_compress::format::decompress_vector(&v) {
+        Err(e) => {
+            println!("SPARSE-DIM refused: {e}");
+            0
+        },
+        Ok(d) => {
+            println!("SPARSE-DIM accepted: {} elements", d.len());
+            0
+        },
     }
 }
